@@ -99,6 +99,51 @@ class BddGen:
                 self.live.append(k2)
             self.q("size %s" % self.a(kk, False))
             self.q("dot 2 %s %s" % (self.a(kk, False), self.a(kk, True)))
+        # long cubes: diagrams with 63 .. 300 levels (lengths around powers of two), as care sets of constrain / restrict, as
+        # arguments of the cofactor operations, and queried
+        K = r.choice([63, 64, 65, 127, 128, 129, 130, 255, 256, 257, 300])
+        lits = [v if r.random() < 0.7 else -v for v in range(1, K + 1)]
+        kc = self.reg("cube %d %s" % (K, " ".join(map(str, lits))), None, False)
+        self.live.append(kc)
+        vk = self.reg("var %d" % K, None, False)
+        vk1 = self.reg("var %d" % (K - 1), None, False)
+        self.live += [vk, vk1]
+        f2 = self.reg("xor %s %s" % (self.a(vk, False), self.a(*self.pick())), None, False)
+        self.live.append(f2)
+        for line in ("restrict %s %s" % (self.a(vk, False), self.a(kc, False)),
+                     "constrain %s %s" % (self.a(vk, r.random() < 0.5), self.a(kc, False)),
+                     "restrict %s %s" % (self.a(f2, r.random() < 0.5), self.a(kc, False)),
+                     "constrain %s %s" % (self.a(f2, False), self.a(kc, False)),
+                     "restrict %s %s" % (self.a(vk1, True), self.a(kc, False)),
+                     "and %s %s" % (self.a(kc, False), self.a(vk, True)),
+                     "ite %s %s %s" % (self.a(kc, False), self.a(vk, False), self.a(f2, False)),
+                     "compose %s %d %s" % (self.a(kc, False), K, self.a(f2, False)),
+                     "subst %s %d %d" % (self.a(kc, False), K, 1 if lits[-1] > 0 else 0)):
+            k2 = self.reg(line, None, False)
+            self.live.append(k2)
+        self.q("onesat %s" % self.a(kc, False))
+        self.q("paths %s" % self.a(kc, False))
+        self.q("satcount %s %d" % (self.a(kc, r.random() < 0.5), K + r.choice([0, 1, 64])))
+        self.q("size %s" % self.a(kc, True))
+        self.q("implies %s %s" % (self.a(kc, False), self.a(vk, False)))
+        self.q("itec %s %s 1" % (self.a(kc, False), self.a(vk1, lits[-2] < 0)))
+        self.classes["cube:len=%d" % K] += 1
+        # long folds: 2^16 (+-1) and more items drawn from a handful of registers
+        if r.random() < 0.5:
+            n = r.choice([65535, 65536, 65537, 70000])
+            pool = [(r.randrange(2, self.n + 2), r.random() < 0.4) for _ in range(4)]     # variables: every step of the fold is cheap
+            items = [pool[r.randrange(4)] for _ in range(n)]
+            kind = r.choice(["andmany", "ormany"])
+            vals = [self.val(*x) if x[0] < len(self.tt) else None for x in pool]
+            tt = None
+            if None not in vals:
+                used = set(items)
+                tt = self.c.one if kind == "andmany" else 0
+                for x, vv in zip(pool, vals):
+                    if x in used:
+                        tt = (tt & vv) if kind == "andmany" else (tt | vv)
+            self.reg("%s %d %s" % (kind, n, " ".join(self.a(*x) for x in items)), tt, tt is not None)
+            self.classes["fold:len=%d" % n] += 1
         self.classes["family:wide"] += 1
 
     def huge_vars_epilogue(self):
